@@ -10,9 +10,9 @@
   * `shipped_parser_is_grammar_parser_*`  hence, for EVERY text and both start symbols, same
                           tree or same rejection (by `C16.parseTree_iso`), and the same
                           `Unit.parse`/`Quantity.parse` computation;
-  * `terminals_eq`, `terminals_modelled`, `rule_options_ok`, `config_eq`, `makefile_ok`:
+  * `terminals_eq`, `patterns_parse`, `rule_options_ok`, `config_eq`, `makefile_ok`:
                           the lexer definitions, tree-shaping options and generator options
-                          agree, and are the ones the Lean lexer/tree builder implement.
+                          agree; the Lean lexer INTERPRETS the regenerated pattern texts (Model/Regex.lean).
 -/
 import Props.C16
 import Generated.Grammar
@@ -44,12 +44,13 @@ theorem shipped_parser_is_grammar_parser_quantity (text : String) :
 
 theorem terminals_eq : shipped.terminals = fresh.terminals := by decide +kernel
 
-/-- every terminal of the grammar is one whose pattern text the Lean matcher implements
-    (same regular expression, no flags, default priority), and nothing is missing -/
-theorem terminals_modelled :
+/-- every terminal pattern of the grammar is inside the regular-expression subset the model
+    interprets (`Re.parse` succeeds), has no flags and the default priority; every terminal of the
+    scan order has a pattern -/
+theorem patterns_parse :
     (fresh.terminals.all (fun t =>
-      knownTerminals.any (fun k => k.1 == t.1 && k.2.1 == t.2.2.1) && t.2.2.2.1.isEmpty && t.2.2.2.2 == 0)) = true ∧
-    fresh.terminals.length = knownTerminals.length ∧
+      (t.2.1 == "PatternStr" || (t.2.1 == "PatternRE" && (Re.parse t.2.2.1).isSome)) &&
+      t.2.2.2.1.isEmpty && t.2.2.2.2 == 0)) = true ∧
     (fresh.lexOrder.all (fun n => fresh.terminals.any (fun t => t.1 == n))) = true ∧
     fresh.lexOrder.length = fresh.terminals.length := by
   decide +kernel
